@@ -31,7 +31,8 @@ ASSUMPTIONS = [
 FLOORS = {'serial_field_calls': 100000, 'date_constructor_calls': 2000,
           'month_move_calls': 2000, 'pair_calls': 2000,
           'early_1900_cases': 100, 'timed_serial_field_cases': 100,
-          'end_of_range_month_moves': 20, 'fractional_date_parts': 50}
+          'end_of_range_month_moves': 20, 'fractional_date_parts': 50,
+          'feb28_month_moves': 100}
 ANCHOR_FUNCS = {
     'xlcalculator/xlfunctions/date.py': ['DATE', 'YEAR', 'MONTH', 'DAY',
                                          'WEEKDAY', 'ISOWEEKNUM', 'EDATE',
@@ -366,6 +367,26 @@ def run(ctx):
                     ('EOMONTH', d.day >= 29, k < 0, moved.month == 2,
                      is_leap(moved.year)))
 
+    # ... 28 February of a common year moved by whole years into a leap year (and
+    # back): the day of the month is kept, it is not "the last day of February"
+    if ctx.shard in (0, 1) or thorough:
+        for y in (2023, 2019, 2099, 1999, 2101, 2022):
+            n = serial_of(datetime.date(y, 2, 28))
+            d = date_of(n)
+            for k in (12, -12, 24, 36, 48, -36, 60, 120, 1, -1, 13):
+                moved = add_months(d, k)
+                if moved is None or moved < datetime.date(1900, 3, 1):
+                    continue
+                R.check('EDATE', (n, k), serial_of(moved), 'month_move_calls',
+                        ('EDATE-feb28', is_leap(moved.year), k % 12 == 0))
+                ctx.event('feb28_month_moves')
+        for y in (2024, 2020, 2000):
+            n = serial_of(datetime.date(y, 2, 29))
+            for k in (12, -12, 48, 1, -1):
+                moved = add_months(date_of(n), k)
+                R.check('EDATE', (n, k), serial_of(moved), 'month_move_calls',
+                        ('EDATE-feb29', k))
+                ctx.event('feb28_month_moves')
     # ... the last months of the range (year 9999): the end of December 9999
     # is the last serial there is, and it is reached from every distance
     if ctx.shard in (2, 3) or thorough:
